@@ -207,7 +207,10 @@ CLAIMED = {
         "same NumericType enumerators, all but BIT/UNKNOWN_TYPE; the writer's first-pixel offset is voxel_size*min_index+origin and the "
         "reader recomputes origin = offset - voxel_size*min_index' with matching axes (first voxel position preserved); the scale factor "
         "for scaled-integer output pairs each data extreme with the output limit of the same sign and has a safety factor > 1; a "
-        "non-vectorised exam-information key is emitted under conditions on its own value only, never on what is stored under another key. NOT "
+        "non-vectorised exam-information key is emitted under conditions on its own value only, never on what is stored under another key; a key whose value comes "
+        "from the image (first pixel offset, image scaling factor, data offset) is left out of the header only when its value is the "
+        "default the reader classes give that key's storage (sentinel / 1 / 0; one default on every reader path), so a missing key "
+        "reads back as what was written. NOT "
         "decided: value preservation/quantisation bounds numerically, exam-info values through formatting/parsing, dynamic/parametric "
         "container bookkeeping.",
         technique="static analysis: writer/reader key-table agreement, must-pass-through, switch exhaustiveness and sibling agreement, "
